@@ -2,9 +2,14 @@
 Proof leg: Properties/C20.v (iteration of a hash map through a sort is independent of the iteration order; the
 conversion models take the order as an explicit oracle).  Correspondence: the real conversion chains
 GDSII -> raw -> {GDSII, protobuf -> raw, LEF} and LEF -> raw -> {GDSII, protobuf -> raw, LEF} (and gridded -> raw via C08's
-harness) repeated inside one process and in several separate processes (fresh hash seeds), outputs compared."""
-import json, os, struct, subprocess
+harness) repeated inside one process and in several separate processes (fresh hash seeds), outputs compared.
+Model leg for the raw -> LEF exporter (section at the end of this file): LefExporter::export on generated raw libraries with
+abstracts, and LefImporter::import followed by LefExporter::export on generated LEF libraries, against the Coq model
+Raw/RawLefExport.v (harness bin c20x)."""
+import json, os, re, struct, subprocess
 from vlib import *
+
+HARNESS_BINS = ["c20", "c20x"]      # c20x: the raw -> LEF exporter against its Coq model (section at the end of this file)
 
 # ------------------------------------------------------------------ a small GDSII byte writer (independent of /repo)
 def gds_real(x):
@@ -140,15 +145,22 @@ def run_proc(cases):
     return harness("c20", cases)
 
 def run(chk, replay=None):
-    chk.proof_leg(["Order/SortedIter.vo", "Order/HashIterAllowed.vo", "Gen/HashIterGen.vo"], "Properties/C20.v", ["Order/SortedIter.v", "Order/Determinism_proofs.v"], "Properties.C20")
+    chk.proof_leg(["Order/SortedIter.vo", "Order/HashIterAllowed.vo", "Gen/HashIterGen.vo", "Raw/RawLefExportCheck.vo"], "Properties/C20.v",
+                   ["Order/SortedIter.v", "Order/Determinism_proofs.v", "Raw/RawLefExport_proofs.v"], "Properties.C20")
     chk.assumptions += [
         "cross-process hash seeds are sampled (a fixed number of separate processes per run); the theorem, not the sampling, carries the claim for the modelled iteration sites",
         "conversions whose models take no order argument are deterministic by construction; that their code iterates no hash container is the obligation C20_conversion_sites_covered (textual site list), the repeated runs support it",
     ]
     quick = chk.tier == "quick"
     known = {k["class"]: k for k in load_known() if k.get("kind") == "finding" and k.get("property") == "C20"}
+    xcases = None
     if replay:
         cases = json.load(open(replay))["replay"]["cases"]
+        xcases = [c for c in cases if "op" in c]          # cases of the raw -> LEF model leg (harness c20x)
+        cases = [c for c in cases if "op" not in c]
+        if not cases:
+            lefx_leg(chk, xcases)
+            return
     else:
         cases = []
         for _ in range(40 if quick else 400):
@@ -216,6 +228,8 @@ def run(chk, replay=None):
     chk.cov["traces_validated_against_impl"] = len(cases) * nproc - len({b[0] for b in bad}) * nproc
     chk.cov["input_distribution"] = {"gds_sources": sum(1 for c in cases if c["src"] == "gds"), "tech_sources": sum(1 for c in cases if c["src"] == "tech"), "rawlib_sources": sum(1 for c in cases if c["src"] == "rawlib"), "lef_sources": sum(1 for c in cases if c["src"] == "lef"),
                                      "stage_results": stage_counts, "stages_ending_in_error": errs, "processes": nproc}
+    if xcases is None or xcases:
+        lefx_leg(chk, xcases)
     chk.add_samples([{"src": c["src"], "source": src_of(c)[:400], "stages": runs[0][i].get("stages")} for i, c in list(enumerate(cases))[:: max(1, len(cases) // 3)]], k=3)
     if bad:
         # group by stage; pick the smallest source per stage
@@ -231,3 +245,336 @@ def run(chk, replay=None):
                 continue
             chk.violation("conversion stage %s %s (%d cases); smallest source: %s" % (st, kind, len({x[1] for x in lst}), src_of(cases[i])[:300]),
                           {"cases": [cases[i]], "stage": st, "kind": kind}, suffix="-" + st)
+
+
+# ====================================================================================================================
+# The raw -> LEF exporter against its Coq model (Raw/RawLefExport.v; theorems C20_lef_* of Properties/C20.v).
+# Harness bin c20x: "export" builds a raw library with abstracts through the public API (every hash map filled in a
+# different insertion order per repetition, fresh hash seeds) and runs LefExporter::export; "roundtrip" runs
+# LefImporter::import then LefExporter::export.  The exported LefLibrary is printed in its own order and compared with
+# the model's (Coq, vm_compute): code 0 = equal, 1 = differs; outputs that differ BETWEEN repetitions are a violation
+# of the property itself (nondeterministic-lef_export).
+LEFX_PROBLEMS = []
+def lefx_variant():
+    """Which `export_point` the tree has, read from the source on every run: "original" = `LefDecimal::from(point.x)`
+    (raw units written as they are), "repaired" = the proposed work/lefx/fix-lef-export-microns.patch
+    (`LefDecimal::new(n, digits)`: microns).  Neither -> the tie to the source is broken (reported); original is used."""
+    src = open(os.path.join(REPO, "layout21raw/src/lef.rs"), encoding="utf8").read()
+    i = src.find("fn export_point(")
+    j = src.find("\nimpl ErrorHelper for LefExporter", i)
+    body = src[i:j] if i >= 0 and j > i else ""
+    orig = re.search(r"LefDecimal::from\(\s*point\.x\s*\)", body) is not None and re.search(r"LefDecimal::from\(\s*point\.y\s*\)", body) is not None
+    rep = "fn export_dist(" in body and re.search(r"LefDecimal::new\(", body) is not None and "Units::Angstrom => 4" in body
+    if orig and not rep:
+        return "original"
+    if rep and not orig:
+        return "repaired"
+    LEFX_PROBLEMS.append("cannot tell which LefExporter::export_point the tree has (neither LefDecimal::from(point.x) nor export_dist with LefDecimal::new)")
+    return "original"
+
+LEFX_NAMES = ["met1", "met2", "met3", "via1", "poly", "li1", "M1", "nwell"]
+def lefx_coord(rng):
+    r = rng.random()
+    if r < 0.55:
+        return rng.randrange(-3000, 3000)
+    if r < 0.75:
+        return rng.randrange(-3000, 3000) * 10 ** rng.randrange(1, 5)        # whole numbers of 0.001 / 0.0001 micron grids and not
+    if r < 0.85:
+        return 0
+    if r < 0.95:
+        return rng.choice([-1, 1]) * rng.randrange(1 << 31, 1 << 62)
+    return rng.choice([-(1 << 63), (1 << 63) - 1, (1 << 63) - 2, -(1 << 63) + 1, 1 << 32, -(1 << 32)])
+def lefx_shape(rng, paths):
+    t = rng.random()
+    P = lambda: [lefx_coord(rng), lefx_coord(rng)]
+    if paths and t < 0.5:
+        return {"P": [[P() for _ in range(rng.randrange(2, 5))], rng.randrange(0, 50)]}
+    if t < 0.6:
+        return {"R": [P(), P()]}
+    return {"G": [P() for _ in range(rng.randrange(0, 7))]}
+def lefx_shapemap(rng, nlayers, lo, hi, named, flavour):
+    """entries on `lo..hi` distinct layers, in a shuffled listing order; keys: named layers only unless flavour says otherwise"""
+    pool = list(named) if flavour not in ("unnamed",) else list(range(nlayers))
+    if flavour == "nullkey":
+        pool = pool + [nlayers]                 # index past the table = the null key (in no slot)
+    n = min(len(pool), rng.randrange(lo, hi + 1))
+    keys = rng.sample(pool, n)
+    if flavour == "unnamed" and keys and all(k in named for k in keys) and len(named) < nlayers:
+        keys[rng.randrange(len(keys))] = rng.choice([k for k in range(nlayers) if k not in named and k not in keys] or [keys[0]])
+        keys = list(dict.fromkeys(keys))
+    if flavour == "nullkey" and keys and nlayers not in keys and rng.random() < 0.7:
+        keys[rng.randrange(len(keys))] = nlayers
+    paths = flavour == "path"
+    return [[k, [lefx_shape(rng, paths and rng.random() < 0.5) for _ in range(rng.randrange(0, 4))]] for k in keys]
+def lefx_gen_lib(rng, flavour):
+    """flavour: plain (exportable), unnamed (some shapes on a layer without name), nullkey, path, units (Micro/Pico), mixed cells"""
+    nl = rng.randrange(2, 7)
+    names = rng.sample(LEFX_NAMES, nl)
+    layers = []
+    for i in range(nl):
+        nm = names[i]
+        if flavour == "unnamed" and (i == nl - 1 or rng.random() < 0.3):
+            nm = None
+        elif flavour != "plain" and rng.random() < 0.15:
+            nm = None
+        if rng.random() < 0.08 and i > 0:
+            nm = layers[0]["name"]              # two layers with one name: both are legal keys with the same LEF name
+        layers.append({"num": rng.randrange(0, 200), "name": nm, "pairs": []})
+    named = [i for i, l in enumerate(layers) if l["name"] is not None]
+    if not named:
+        layers[0]["name"] = "met1"; named = [0]
+    units = rng.choice(["Nano", "Angstrom"]) if flavour != "units" else rng.choice(["Micro", "Pico", "Micro", "Pico", "Nano"])
+    ncells = rng.randrange(1, 4)
+    cells = []
+    for ci in range(ncells):
+        name = "c%d" % ci
+        layout = None
+        if rng.random() < 0.3:
+            layout = {"name": name, "insts": [{"name": "i%d" % k, "cell": rng.randrange(0, ncells), "loc": [lefx_coord(rng), lefx_coord(rng)], "reflect": rng.random() < 0.5, "angle": None}
+                                              for k in range(rng.randrange(0, 3))],
+                      "elems": [{"net": rng.choice([None, "a"]), "layer": rng.randrange(0, nl), "purpose": "Drawing", "shape": lefx_shape(rng, True)} for _ in range(rng.randrange(0, 3))],
+                      "annots": []}
+        ab = None
+        if rng.random() < 0.85 or ci == 0:
+            ports = [{"net": rng.choice(["A", "B", "VDD", "VSS", "clk", "q_%d" % k]), "shapes": lefx_shapemap(rng, nl, 1, 4, named, flavour)} for k in range(rng.randrange(1, 5))]
+            ab = {"name": name if rng.random() < 0.9 else "other", "outline": [[0, 0], [100, 0], [100, 100], [0, 100]],
+                  "ports": ports, "blockages": lefx_shapemap(rng, nl, 0, 4, named, flavour)}
+        cells.append({"name": name, "layout": layout, "abs": ab})
+    return {"name": rng.choice(["lib", "", "L2"]), "units": units, "layers": layers, "cells": cells}
+
+def lefx_D(neg, mag, scale):
+    return [bool(neg), str(mag), scale]
+def lefx_gen_dec(rng, kind):
+    neg = rng.random() < 0.3
+    if kind == "bad":
+        return lefx_D(neg, rng.randrange(0, 3000) * 10 + rng.randrange(1, 10), 5)
+    s = rng.randrange(0, 7)
+    extra = rng.randrange(0, 3)
+    return lefx_D(neg and rng.random() < 0.9, rng.randrange(0, 2000 * 10 ** min(s, 4)) * 10 ** (max(0, s - 4) + extra), s + extra)
+def lefx_gen_leflib(rng, flavour):
+    """LEF libraries for the chain LEF -> raw -> LEF: plain (rectangles and polygons on the 0.0001 micron grid: import and export
+    succeed), path (import succeeds, export panics), bad (an off-grid coordinate: import fails)"""
+    names = rng.sample(LEFX_NAMES + ["boundary"], rng.randrange(1, 5))
+    dk = lambda: lefx_gen_dec(rng, "bad" if flavour == "bad" and rng.random() < 0.05 else "ok")
+    P = lambda: [dk(), dk()]
+    def lg():
+        geoms = []
+        for _ in range(rng.randrange(1, 4)):
+            t = rng.random()
+            if flavour == "path" and t < 0.3:
+                geoms.append(["w", [P() for _ in range(rng.randrange(2, 4))]])
+            elif t < 0.6:
+                geoms.append(["r", P(), P()])
+            else:
+                geoms.append(["p", [P() for _ in range(rng.randrange(3, 6))]])
+        width = None
+        if any(g[0] == "w" for g in geoms) or rng.random() < 0.2:
+            width = dk(); width[0] = False
+        return {"layer": rng.choice(names), "width": width, "spacing": None, "epg": None, "nvias": 0, "geoms": geoms}
+    macros = []
+    for mi in range(rng.randrange(1, 4)):
+        pins = [{"name": rng.choice(["A", "B", "VDD", "q_%d" % pi]), "ports": [[lg() for _ in range(rng.randrange(1, 4))] for _ in range(rng.randrange(1, 3))]} for pi in range(rng.randrange(1, 4))]
+        macros.append({"name": "m%d" % mi, "size": [dk(), dk()], "pins": pins, "obs": [lg() for _ in range(rng.randrange(0, 4))]})
+    lib = {"op": "roundtrip", "layers": None, "ncs": None, "macros": macros}
+    if rng.random() < 0.3:
+        lib["dbu"] = rng.choice([100, 200, 400, 800, 1000, 2000, 4000, 8000, 10000, 20000])
+    if rng.random() < 0.3:
+        lib["layers"] = [[rng.choice([0, 1, 2, 3, 5, 7, 40]), rng.choice(names + ["boundary", "other", None])] for _ in range(rng.randrange(0, 5))]
+    return lib
+
+# ------------------------------------------------------------------ Coq terms
+def x_pt(p):
+    return Raw("(mkpt %s %s)" % (cz(p[0]), cz(p[1])))
+def x_shape(s):
+    if "R" in s:
+        return Raw("(Rect %s %s)" % (x_pt(s["R"][0]), x_pt(s["R"][1])))
+    if "G" in s:
+        return Raw("(Polygon %s)" % clist([x_pt(p) for p in s["G"]]))
+    return Raw("(Path %s %s)" % (clist([x_pt(p) for p in s["P"][0]]), cz(s["P"][1])))
+def x_smap(m):
+    return clist([ctup(cnat(k), clist([x_shape(s) for s in sh])) for k, sh in m])
+def x_lib(lib):
+    layers = clist([capp("mklayer", cz(l["num"]), copt(None if l["name"] is None else cstr(l["name"])), Raw("[]")) for l in lib["layers"]])
+    cells = []
+    for c in lib["cells"]:
+        ab = None
+        if c["abs"] is not None:
+            a = c["abs"]
+            ports = clist([capp("mkabsport", cstr(p["net"]), x_smap(p["shapes"])) for p in a["ports"]])
+            ab = capp("mkabstract", cstr(a["name"]), clist([x_pt(p) for p in a["outline"]]), ports, x_smap(a["blockages"]))
+        lay = None
+        if c["layout"] is not None:
+            l = c["layout"]
+            insts = clist([capp("mkinst", cstr(i["name"]), cnat(i["cell"]), x_pt(i["loc"]), cbool(i["reflect"]), Raw("None")) for i in l["insts"]])
+            elems = clist([capp("mkelem", copt(None if e["net"] is None else cstr(e["net"])), cnat(e["layer"]), Raw("Drawing"), x_shape(e["shape"])) for e in l["elems"]])
+            lay = capp("mklayout", cstr(l["name"]), insts, elems, Raw("[]"))
+        cells.append(capp("mkcell", cstr(c["name"]), copt(ab), copt(lay)))
+    return capp("mklib", cstr(lib["name"]), Raw(lib["units"]), layers, clist(cells))
+def x_dec(d):
+    return Raw("(mkdec %s %s %d%%nat)" % ("true" if d[0] else "false", d[1], d[2]))
+def x_lp(p):
+    return Raw("(T.mklpoint %s %s)" % (x_dec(p[0]), x_dec(p[1])))
+def x_lshape(g):
+    if g[0] == "r":
+        return Raw("(T.LRect %s %s)" % (x_lp(g[1]), x_lp(g[2])))
+    return Raw("(%s %s)" % ("T.LPolygon" if g[0] == "p" else "T.LPath", clist([x_lp(p) for p in g[1]])))
+def x_lgeom(g):
+    if g[0] == "i":
+        return Raw("(T.LIterate %s)" % x_lshape(g[1]))
+    return Raw("(T.LShape %s)" % x_lshape(g))
+def x_lg(lg):
+    sp = None
+    if lg["spacing"] is not None:
+        sp = Raw("(%s %s)" % ("T.LSpacing" if lg["spacing"][0] == "s" else "T.LDesignRuleWidth", x_dec(lg["spacing"][1])))
+    return capp("T.mkllg", cstr(lg["layer"]), clist([x_lgeom(g) for g in lg["geoms"]]), cnat(lg["nvias"]),
+                cbool(lg["epg"] is not None), copt(sp), copt(None if lg["width"] is None else x_dec(lg["width"])))
+def x_llib(lib):
+    ms = []
+    for m in lib["macros"]:
+        pins = [capp("T.mklpin", cstr(p["name"]), clist([clist([x_lg(lg) for lg in port]) for port in p["ports"]])) for p in m["pins"]]
+        size = None if m["size"] is None else ctup(x_dec(m["size"][0]), x_dec(m["size"][1]))
+        ms.append(capp("T.mklmacro", cstr(m["name"]), copt(size), clist(pins), clist([x_lg(lg) for lg in m["obs"]])))
+    return capp("T.mkllib", cbool(lib.get("ncs") == "off"), clist(ms))
+def x_impl(out):
+    if out is None:
+        return Raw("XIPanic")            # placeholder (the import failed: nothing was exported); ignored by the checker
+    if "panic" in out:
+        return Raw("XIPanic")
+    if "err" in out:
+        k = "XUnits" if "invalid units" in out["err"] else "XNoName" if "un-named layer" in out["err"] else "XOther"
+        return Raw("(XIErr %s)" % k)
+    ok = out["ok"]
+    return capp("XIOk", copt(None if ok["dbu"] is None else cz(ok["dbu"])), x_llib(ok))
+LEFX_IMPORT_ERRS = [("non-zero fractional part", 1), ("TryFromIntError", 2), ("out of range integral type", 2), ("Missing LEF size", 3), ("Path with no Width", 4),
+                    ("except_pg_net", 5), ("nonzero spacing", 6), ("Iterate", 7), ("case-insensitive", 8), ("No more layer numbers", 9)]
+def x_reimport(out):
+    """LefImporter::import of the exported library, as the number of RawLefExportCheck.reimport_code"""
+    if out is None or "ok" not in out:
+        return -1
+    r = out.get("reimport")
+    if r == "ok":
+        return 0
+    if isinstance(r, dict) and "err" in r:
+        return next((k for pat, k in LEFX_IMPORT_ERRS if pat in r["err"]), 10)
+    return 100
+def x_layers0(ls):
+    if ls is None:
+        return Raw("None")
+    return Raw("(Some %s)" % clist([ctup(cz(n), copt(None if nm is None else cstr(nm))) for n, nm in ls]))
+
+LEFX_HDR = ("From Coq Require Import ZArith List String Bool.\nImport ListNotations.\n"
+            "From L21 Require Import Base.Outcome Raw.RawData Raw.RawLefDec Raw.RawLefExport Raw.RawLefExportCheck.\nOpen Scope Z_scope.\n")
+
+def lefx_cases(chk):
+    rng = chk.rng
+    quick = chk.tier == "quick"
+    mult = 1 if quick else 20
+    reps = 4 if quick else 8
+    cases = []
+    R = lambda a, b, c, d: {"R": [[a, b], [c, d]]}
+    def lib2(m, blk, units="Nano", names=("met1", "met2", "met3")):
+        return {"name": "lib", "units": units, "layers": [{"num": 5 + i, "name": n, "pairs": []} for i, n in enumerate(names)],
+                "cells": [{"name": "c", "layout": None, "abs": {"name": "c", "outline": [[0, 0], [100, 0], [100, 100], [0, 100]], "ports": [{"net": "a", "shapes": m}], "blockages": blk}}]}
+    # always: the two-layer witness of C20_lef_export_map_order_refuted in both listing orders, three layers, and one case per outcome class
+    m12 = [[0, [R(0, 0, 10, 10)]], [1, [R(20, 20, 30, 30)]]]
+    for m in (m12, m12[::-1]):
+        cases.append({"op": "export", "kind": "dir_two_layers", "reps": 8, "lib": lib2(m, m)})
+    m123 = m12 + [[2, [R(-5, -5, 0, 0), {"G": [[0, 0], [4, 0], [4, -4]]}]]]
+    cases.append({"op": "export", "kind": "dir_three_layers", "reps": 8, "lib": lib2(m123[::-1], m123[1:] + m123[:1], units="Angstrom")})
+    cases.append({"op": "export", "kind": "dir_unnamed", "reps": 2, "lib": lib2(m12, [], names=("met1", None))})
+    cases.append({"op": "export", "kind": "dir_nullkey", "reps": 2, "lib": lib2([[0, []], [7, []]], [])})
+    cases.append({"op": "export", "kind": "dir_path", "reps": 2, "lib": lib2([[0, [{"P": [[[0, 0], [5, 0]], 2]}]]], [])})
+    cases.append({"op": "export", "kind": "dir_path_unnamed", "reps": 2, "lib": lib2([[1, [{"P": [[[0, 0], [5, 0]], 2]}]]], [], names=("met1", None))})
+    for u in ("Micro", "Pico", "Nano", "Angstrom"):
+        cases.append({"op": "export", "kind": "dir_units", "reps": 2, "lib": lib2(m12, [], units=u)})
+    cases.append({"op": "export", "kind": "dir_no_abstract", "reps": 2, "lib": {"name": "lib", "units": "Nano", "layers": [{"num": 1, "name": None, "pairs": []}],
+                  "cells": [{"name": "a", "layout": None, "abs": None},
+                            {"name": "b", "layout": {"name": "b", "insts": [{"name": "i", "cell": 0, "loc": [1, 2], "reflect": False, "angle": None}],
+                                                     "elems": [{"net": None, "layer": 0, "purpose": "Drawing", "shape": {"P": [[[0, 0], [5, 0]], 2]}}], "annots": []}, "abs": None}]}})
+    cases.append({"op": "export", "kind": "dir_limits", "reps": 2, "lib": lib2([[0, [R(-(1 << 63), (1 << 63) - 1, 0, -1)]]], [], units="Angstrom")})
+    for flavour, n in (("plain", 220), ("unnamed", 40), ("nullkey", 25), ("path", 40), ("units", 25), ("mixed", 50)):
+        for _ in range(n * mult):
+            cases.append({"op": "export", "kind": "lib_" + flavour, "reps": reps, "lib": lefx_gen_lib(rng, flavour)})
+    for flavour, n in (("plain", 90), ("path", 20), ("bad", 20)):
+        for _ in range(n * mult):
+            cases.append(dict(lefx_gen_leflib(rng, flavour), kind="rt_" + flavour, reps=reps))
+    return cases
+
+def lefx_strip(c):
+    return {k: v for k, v in c.items() if k != "kind"}
+def lefx_nontrivial(c):
+    if c["op"] == "export":
+        return any(cl["abs"] is not None and any(len(p["shapes"]) >= 2 for p in cl["abs"]["ports"] + [{"shapes": cl["abs"]["blockages"]}]) for cl in c["lib"]["cells"])
+    return any(len({lg["layer"] for port in p["ports"] for lg in port}) >= 2 for m in c["macros"] for p in m["pins"]) or any(len({lg["layer"] for lg in m["obs"]}) >= 2 for m in c["macros"])
+
+def lefx_leg(chk, replay_cases=None):
+    chk.assumptions += [
+        "raw -> LEF: rust_decimal `From<isize>` / `Decimal::new` and lef21 `LefDbuPerMicron::try_new` are modelled by contract (Raw/RawLefExport.v), validated by every exported coordinate of the correspondence run; "
+        "slot-map keys compare in insertion order (no layer is ever removed); errors are compared by kind, the context stack is not modelled",
+    ]
+    if not getattr(chk, "model_ok", False):
+        return
+    variant = lefx_variant()
+    for pb in LEFX_PROBLEMS:
+        chk.broken.append("tie to the source (raw -> LEF model variant): " + pb)
+    cases = replay_cases if replay_cases is not None else lefx_cases(chk)
+    res = harness("c20x", [lefx_strip(c) for c in cases])
+    items, idx = [], []
+    codes = [None] * len(cases)
+    for i, (c, r) in enumerate(zip(cases, res)):
+        if "out" not in r:
+            codes[i] = 1                   # harness error / crash
+            continue
+        if r.get("unstable"):
+            codes[i] = 2
+            continue
+        out = r["out"]
+        if out is not None and "ok" in out and not out["ok"]["defaults_ok"]:
+            codes[i] = 1                   # a field the model does not represent was written
+            continue
+        if c["op"] == "export":
+            items.append(capp("c20x_check", Raw(variant), x_lib(c["lib"]), x_impl(out), cz(x_reimport(out))))
+        else:
+            items.append(capp("c20x_check_rt", Raw(variant), x_layers0(c.get("layers")), x_llib(c), cbool(r["import"] == "ok"), x_impl(out)))
+        idx.append(i)
+    vals = coq_eval_lists(LEFX_HDR, items, chk.rundir, "c20x", shard=60)
+    for i, s in zip(idx, vals):
+        codes[i] = parse_z(s)
+    outcome = {}
+    for c, r in zip(cases, res):
+        o = r.get("out")
+        k = ("import-failed" if o is None else "ok" if "ok" in o else "err-units" if "invalid units" in o.get("err", "") else "err-unnamed-layer" if "err" in o else "panic-path" if "LefExporter::PATH" in o.get("panic", "") else "other") if "out" in r else "harness"
+        outcome[c["op"] + ":" + k] = outcome.get(c["op"] + ":" + k, 0) + 1
+    kinds = {}
+    for c in cases:
+        kinds[c.get("kind", "?")] = kinds.get(c.get("kind", "?"), 0) + 1
+    reimp = {}
+    for c, r in zip(cases, res):
+        o = r.get("out")
+        if c["op"] == "export" and o is not None and "ok" in o:
+            k = "%s (%s)" % ({-1: "n/a", 0: "imported", 3: "err Missing LEF size", 100: "panic"}.get(x_reimport(o), "err other"), "no macro" if not o["ok"]["macros"] else "with macros")
+            reimp[k] = reimp.get(k, 0) + 1
+    nruns = sum(r.get("runs", 0) for r in res)
+    chk.cov["evaluations"] += nruns
+    chk.cov["distinct_nontrivial"] += len({json.dumps(lefx_strip(c), sort_keys=True) for c in cases if lefx_nontrivial(c)})
+    chk.cov["traces_validated_against_impl"] += sum(r.get("runs", 0) for r, k in zip(res, codes) if k == 0)
+    chk.cov["rule"] += ("; raw -> LEF model leg: raw libraries with abstracts built through the public API (1-3 cells, 1-4 ports on 1-4 layers, blockages on 0-4 layers, "
+                        "rectangles / polygons / paths, coordinates up to the 64-bit limits, layers with and without names, null keys, all four units, cells without abstract, layouts with instances) "
+                        "and LEF libraries sent through import then export; every case exported %d times with a different insertion order of every map, the LefLibrary compared with the Coq model's; "
+                        "non-trivial = some port or blockage map has two or more layers; distinct by case content" % (max([c.get("reps", 0) for c in cases[-1:]] + [0])))
+    chk.cov["input_distribution"]["lef_export_model_leg"] = {"model_variant": variant, "cases": len(cases), "exports_run": nruns, "kinds": kinds, "impl_outcomes": outcome, "reimport_of_exported_library": reimp,
+                                                             "codes": {str(k): sum(1 for x in codes if x == k) for k in (0, 1, 2)}}
+    step = max(1, len(cases) // 3)
+    chk.add_samples([{"case": lefx_strip(c) if len(json.dumps(c)) < 2500 else {"op": c["op"], "kind": c.get("kind"), "size": len(json.dumps(c))},
+                      "impl": r if len(json.dumps(r)) < 2500 else "(large)", "code": k} for c, r, k in list(zip(cases, res, codes))[3::step]], k=3)
+    viol = sorted([(len(json.dumps(c)), i) for i, (c, k) in enumerate(zip(cases, codes)) if k == 2])
+    mism = sorted([(len(json.dumps(c)), i) for i, (c, k) in enumerate(zip(cases, codes)) if k == 1])
+    chk.cov["correspondence_mismatches"] += len(mism)
+    if viol:
+        i = viol[0][1]
+        chk.violation("LefExporter::export: the exported library differs between repetitions of one input (%d cases); smallest: %s"
+                      % (len(viol), json.dumps(lefx_strip(cases[i]))[:400]), {"cases": [cases[j] for _, j in viol[:20]], "stage": "lef_export_model"}, suffix="-lefx")
+    elif mism:
+        i = mism[0][1]
+        chk.broken.append("correspondence C20 raw -> LEF: impl differs from the model Raw/RawLefExport.v (%s; %d cases), e.g. %s impl=%s"
+                          % (variant, len(mism), json.dumps(lefx_strip(cases[i]))[:500], json.dumps(res[i])[:500]))
